@@ -795,6 +795,26 @@ def r20_ghost_thread(toks, log, cfg):
                 log.add("R20", out[i + 1], "fn %s: ghost parameter" % out[i + 1].text)
                 i = c + len(ins)
                 continue
+        # free-function calls `name (` / `name ::< .. > (` of the functions listed under "fcalls"
+        if t.kind == "id" and t.text in cfg.get("fcalls", []) and not (i > 0 and out[i - 1].text in (".", "fn", "::")):
+            j = i + 1
+            if j + 1 < len(out) and out[j].text == "::" and out[j + 1].text == "<":
+                d = 0; j += 1
+                while True:
+                    if out[j].text == "<": d += 1
+                    elif out[j].text == ">":
+                        d -= 1
+                        if d == 0: break
+                    j += 1
+                j += 1
+            if j < len(out) and out[j].text == "(":
+                c = match_close(out, j)
+                k = c - 1
+                ins = gen((", " if (c > j + 1 and out[k].text != ",") else " ") + cfg["arg"], out[k], "")
+                out[c:c] = ins
+                log.add("R20", t, "call %s: ghost argument" % t.text)
+                i = j + 1
+                continue
         # calls  `. name (`
         if t.text == "." and i + 2 < len(out) and out[i + 1].kind == "id" and out[i + 1].text in cfg.get("calls", {}) and out[i + 2].text == "(":
             name = out[i + 1].text
@@ -920,6 +940,13 @@ def r29_deasync(toks, log):
                 out += gen("}", toks[bc], toks[bc].ws)
                 i = c + 4
                 continue
+        # `tokio::join!(F1, F2, ..)` -> `(F1, F2, ..)`: all the futures run to completion; their interleaving is not modelled (they are evaluated one after the other)
+        if t.text == "tokio" and i + 4 < n and [x.text for x in toks[i + 1:i + 4]] == ["::", "join", "!"] and toks[i + 4].text == "(":
+            c = match_close(toks, i + 4)
+            log.add("R29", t, "tokio::join!")
+            out += gen("(", t) + r29_deasync([x.clone() for x in toks[i + 5:c]], log) + gen(")", toks[c], "")
+            i = c + 1
+            continue
         if t.text == "tokio" and i + 4 < n and [x.text for x in toks[i + 1:i + 4]] == ["::", "select", "!"] and toks[i + 4].text == "{":
             c = match_close(toks, i + 4)
             inner = toks[i + 5:c]
